@@ -103,6 +103,104 @@ func itoa3(i int) string {
 }
 
 func init() {
+	// args: seed, nkeys, keys... ; a thread of 6 ancestors and 9 replies whose loaders take 0-3 ms; every key is
+	// delivered by its own goroutine (as main does), a resize poller runs every millisecond.
+	// result: frames emitted while nobody held the lock, overlapping output calls, keys never processed, frames
+	register("uistress", func(a []int) []int {
+		r := &reader{toks: a}
+		seed := r.next()
+		keys := r.list()
+		gate := &uiGate{open: make(chan struct{})}
+		close(gate.open)
+		n := 16
+		items := make([]*uiItem, n)
+		for i := range items {
+			items[i] = &uiItem{id: i, gate: gate, links: []string{"http://dead.invalid/l"}}
+		}
+		for i := 1; i <= 6; i++ {
+			items[i].parent = items[i-1]
+		}
+		l := &uiList{gate: gate}
+		for i := 7; i < n; i++ {
+			items[i].parent = items[6]
+			l.items = append(l.items, items[i])
+		}
+		items[6].kids = l
+		savedCtx, savedFeeds := config.Parsed.Network.Context, config.Parsed.Feeds
+		config.Parsed.Network.Context = 2
+		config.Parsed.Feeds = map[string][]string{"main": {"http://dead.invalid/a"}}
+		defer func() { config.Parsed.Network.Context, config.Parsed.Feeds = savedCtx, savedFeeds }()
+		var mu sync.Mutex
+		unlocked, overlaps, inOutput, frames := 0, 0, 0, 0
+		var s *ui.State
+		s = ui.NewState(60, 20, func(f string) {
+			held := s.VerifLockHeld()
+			mu.Lock()
+			frames++
+			if !held {
+				unlocked++
+			}
+			inOutput++
+			if inOutput > 1 {
+				overlaps++
+			}
+			mu.Unlock()
+			time.Sleep(time.Duration(seed%3) * 100 * time.Microsecond)
+			mu.Lock()
+			inOutput--
+			mu.Unlock()
+		})
+		s.VerifOpen(items[6])
+		stop := make(chan struct{})
+		go func() {
+			w := 60
+			for {
+				select {
+				case <-stop:
+					return
+				case <-time.After(time.Millisecond):
+					w = 50 + (w+7)%20
+					s.SetWidthHeight(w, 20)
+				}
+			}
+		}()
+		var wg sync.WaitGroup
+		typing := false // a command is typed key by key (a human cannot type faster than a key is handled)
+		for i, k := range keys {
+			if k == ':' && !typing {
+				wg.Wait()
+				typing = true
+			}
+			if typing {
+				s.Update(byte(k))
+				if k == 13 || k == 27 {
+					typing = false
+				}
+				continue
+			}
+			wg.Add(1)
+			go func(k int) {
+				defer wg.Done()
+				s.Update(byte(k))
+			}(k)
+			if (i+seed)%3 == 0 {
+				time.Sleep(300 * time.Microsecond)
+			}
+		}
+		done := make(chan struct{})
+		go func() { wg.Wait(); close(done) }()
+		stuck := 0
+		select {
+		case <-done:
+		case <-time.After(20 * time.Second):
+			stuck = 1
+		}
+		time.Sleep(30 * time.Millisecond)
+		close(stop)
+		mu.Lock()
+		defer mu.Unlock()
+		return []int{unlocked, overlaps, stuck, frames}
+	})
 	// args: preload, width, height, nitems, per item: parent(-1) nkids kids... nlinks links..., root item id,
 	//       nfeeds (name, ninputs inputs...), keys...
 	//       key tokens: 0..255 a byte for Update; 256 close the load gate; 257 open it; 258 w h = resize
